@@ -585,6 +585,10 @@ def _scenarios():
     sc["or-loses"] = (lambda r, c: X(r, c) ^ W(AN), "abc1", [], [OR0], 1, 0)
     sc["or-wins"] = (lambda r, c: X(r, c) ^ W(N), "abc", [(0, ["abc"])], [OR0], 1, 1)
     sc["or-tie-first"] = (lambda r, c: X(r, c) ^ W(AN), "abc", [(0, ["abc"])], [OR0], 1, 1)
+    # ties: '^' returns the FIRST of the alternatives tied at the longest match; a later tied alternative is not what is returned
+    sc["or-tie-second"] = (lambda r, c: W(AN) ^ X(r, c), "abc", [], None, 0, 0)
+    sc["or-tie-third"] = (lambda r, c: pp.Literal("ab") ^ W(AN) ^ W(A + "_") ^ X(r, c), "abc", [], None, 0, 0)
+    sc["or-tie-second-in-seq"] = (lambda r, c: (W(AN) ^ X(r, c)) + W(N), "abc 12", [], None, 0, 0)
     sc["each"] = (lambda r, c: X(r, c) & W(N), "12 ab", [(3, ["ab"])], [EACH0], 1, 1)
     sc["skipto-scan"] = (lambda r, c: pp.SkipTo(X(r, c)), "12 ab", [], [SK2], 1, 0)
     sc["skipto-include"] = (lambda r, c: pp.SkipTo(X(r, c), include=True), "12 ab", [(3, ["ab"])], [SK2], 1, 1)
